@@ -34,6 +34,14 @@ type SliceV struct {
 	Off  *Term
 	Len  *Term
 	Elem types.Type
+	Nil  *Term // nil-ness (nil => Len == 0); nil pointer means False
+}
+
+func (s *SliceV) IsNil() *Term {
+	if s.Nil == nil {
+		return False
+	}
+	return s.Nil
 }
 
 // MapV: reference to a map object (content: Map datatype term).
